@@ -70,9 +70,10 @@ def render_indent(nodes, syn, o):
                 out.append(s['selfClose'])
             else:
                 if n.text or not n.children:
-                    lines = re.split(r'\r\n|\r|\n', n.text) if n.text else ['']
+                    txt = M.strip_fields(n.text) if n.text else n.text      # default field callback: a field prints its placeholder
+                    lines = re.split(r'\r\n|\r|\n', txt) if txt else ['']
                     # str.splitlines semantics: a trailing line break does not open a new line
-                    if n.text and len(lines) > 1 and lines[-1] == '':
+                    if txt and len(lines) > 1 and lines[-1] == '':
                         lines = lines[:-1]
                     if len(lines) == 1:
                         out.append(' ' + lines[0])
@@ -243,8 +244,12 @@ def script15(draw, depth=0):
             r = draw(st.floats(0, 1))
             if r < 0.25:
                 it['x'] = [draw(st.sampled_from(['t', 'some text', 'x y z']))]
-            elif r < 0.35:
+            elif r < 0.30:
                 it['x'] = [draw(st.sampled_from(['one\ntwo', 'a\nbbb\ncc', 'l1\r\nl2', 'one\n\ntwo', 'p1\nq\n\nr\ns', 'x\n\n\ny']))]
+            elif r < 0.35:
+                # text with explicit fields, single- and multi-line, the line break in any token
+                it['x'] = draw(st.sampled_from([['Name: ', ['f', 1, None], '\nAge: ', ['f', 2, None]], ['Total ', ['f', 1, 'n'], ' items\nThanks'], [['f', 0, None], ' x\ny'],
+                                                ['a ', ['f', 1, 'ph'], ' b'], ['l1\n', ['f', 2, 'two'], '\nl3']]))
             elif r < 0.45:
                 it['sc'] = True
             if draw(st.floats(0, 1)) < 0.2:
